@@ -77,7 +77,8 @@ def run(ctx: Context) -> None:
     ctx.rule(c04.r2_tables, pl)
     # the resumed run continues from what was saved: every history field comes back through the persistence chain as itself (field plumbing of C04, history + counters)
     from . import c18 as _c18
-    ctx.rule(_c18.restored_records_identity, ("current_batch_index", "n_sampled_params"))
+    ctx.rule(_c18.restored_records_identity, ("current_batch_index", "n_sampled_params", "convergence_precision", "ensemble_size", "n_jobs", "initial_random_seed", "random_generator_state",
+                                              "real_data", "parameters_bounds", "parameters_precision", "loss_function", "scheduler"))
     ctx.rule(c04.r5_picklable)
     ctx.rule(c04.r9_suffix_slices, pl)
     ctx.rule(c04.r7_restore_order, pl)
